@@ -73,6 +73,16 @@ class FakeCircuit(Host):
     def add_gate(self, g):
         return self.emplace_gate(g.label, g.gate_type, g.operands)
 
+    def _emplace_gate(self, label, gate_type, operands=(), **kw):
+        """Unchecked constructor (used by the bench reader)."""
+        for o in operands:
+            self._gate_to_users[o].append(label)
+        self._gates[label] = FakeGate(label, gate_type, tuple(operands))
+        if gate_type == self._input_type:
+            self._inputs.append(label)
+        self.log.append(('_emplace', label))
+        return self
+
     def input_at_index(self, i):
         if i >= len(self._inputs):
             raise InterpRaise('GateDoesntExistError')
